@@ -8,7 +8,7 @@ from vlib.workers import ALL, WorkerDied, WorkerSet
 
 PROPERTY = "C06"
 LEVEL = "exploration"
-RULE = ("G1 with-programs (all four function kinds) and G2 await/yield-from chains; for each, a Hypothesis-drawn subset of "
+RULE = ("(In a process of its own per interpreter: a running async generator without a Python caller - driven by its asend().send as a thread function - extracted 600 times from inside itself while the interpreter's instruction caches adapt; the process survives and the run equals the un-observed one.) G1 with-programs (all four function kinds) and G2 await/yield-from chains; for each, a Hypothesis-drawn subset of "
         "its suspension points and probe (running) points at which extraction is performed, a repetition count 1-3 and the "
         "context-analysis mode (trickery / referents); CPython 3.9-3.12. Between two extractions that are compared the first result is read in every way (str, format, format_flat, summaries, clsname / linetext of each frame). Oracles: (a) metamorphic - the event trace of the "
         "program (values yielded, managers entered/exited in order with the exception type they saw, probe calls, exceptions, "
@@ -97,7 +97,26 @@ def shard(arg):
                 out.violation(v["desc"], fail["case"], v["interp"], obs=v.get("obs"), flaky=fail["flaky"])
     if arg.get("regress"):
         c16.run_regress_sequences(out)
+        c_driven_agen(out, interps)
     return out
+
+
+def c_driven_agen(out, interps):
+    """each in a process of its own (what is looked for is a crash of the interpreter)"""
+    case = {"c_driven_agen": True}
+    for interp in interps:
+        with WorkerSet([interp], hooks=False) as ws:
+            try:
+                res = ws[interp].request({"op": "pure.c_driven_agen", "iterations": 300}, timeout=300)
+            except WorkerDied as ex:
+                out.violation("interpreter %s DIED (exit %r) while a running async generator without a Python caller was "
+                              "extracted from inside itself" % (interp, ex.returncode), case, interp)
+                continue
+        out.per_interp[interp] += 1
+        out.evaluations += res["stats"]["extractions"]
+        if res["obs"]:
+            out.violation("%s on %s: %r" % (res["obs"][0]["kind"], interp, res["obs"][0]), case, interp)
+    out.note_case(case, True, classes=["running_async_generator_driven_by_a_C_callable"], n_eval=len(interps))
 
 
 def run(ctx):
@@ -113,6 +132,9 @@ def replay(ctx, data):
     out = Outcome()
     interps = [data["interp"]] if data.get("interp") in ALL else ALL
     case = data["case"]
+    if case.get("c_driven_agen"):
+        c_driven_agen(out, interps)
+        return out
     if "sequence" in case:
         from checks import c16
         c16.run_regress_sequences(out)
